@@ -315,6 +315,10 @@ func loadCases(path string) (map[int]Node, []int, error) {
 			return nil, nil, fmt.Errorf("case line: %v", err)
 		}
 		id := nint(n, "id")
+		if _, dup := out[id]; dup {
+			// two cases under one id would pair a program with another one's expectation
+			return nil, nil, fmt.Errorf("duplicate case id %d", id)
+		}
 		out[id] = n
 		order = append(order, id)
 	}
